@@ -72,7 +72,19 @@ def generate(tier, rng):
                 lo, hi = t["entries"][0][0], t["entries"][-1][-2]
                 t["min"], t["max"] = lo - rng.randint(0, 2), hi + rng.randint(0, 2)
             tiers.append(t)
-        a, b = sorted((rng.randint(-3, 45), rng.randint(-3, 45)))
+        if rng.random() < 0.15:
+            # annotation that starts before 0 (negative times are ordinary times): windows beginning at 0 then cut through it
+            off = -rng.randint(1, 25)
+            wide = [e for t in tiers if t["kind"] == "I" for e in t["entries"] if e[1] - e[0] > 1]
+            if wide and rng.random() < 0.6:
+                e = rng.choice(wide)
+                off = -rng.randint(e[0] + 1, e[1] - 1)          # 0 falls inside an interval
+            tiers = [gen.shift_tier(t, off) for t in tiers]
+            a, b = sorted((rng.randint(-3, 45), rng.randint(-3, 45)))
+            if rng.random() < 0.6 and b > 0:
+                a = 0
+        else:
+            a, b = sorted((rng.randint(-3, 45), rng.randint(-3, 45)))
         u = rng.random()
         if u < 0.1:
             b = a
